@@ -182,8 +182,16 @@ func (c c3Case) build(r c3Ref) (snippet.Snippet, []int) {
 		// map[P.T]...[]*A.T as a go/types type
 		var tt types.Type = c3Named(c.Paths[r.Args[0]], tname(r.Args[0]))
 		used := []int{r.Args[0], r.P}
-		for _, a := range r.Args[1:] {
+		for k, a := range r.Args[1:] {
 			used = append(used, a)
+			if k > 0 && k == len(r.Args)-2 {
+				// the last component is only mentioned by a blank field (padding / marker fields such as _ structs.HostLayout)
+				tt = types.NewStruct([]*types.Var{
+					types.NewField(token.NoPos, nil, "F", types.NewSlice(types.NewPointer(tt)), false),
+					types.NewField(token.NoPos, nil, "_", types.NewArray(c3Named(c.Paths[a], tname(a)), 0), false),
+				}, nil)
+				continue
+			}
 			tt = types.NewStruct([]*types.Var{
 				types.NewField(token.NoPos, nil, "F", types.NewSlice(types.NewPointer(tt)), false),
 				types.NewField(token.NoPos, nil, "G", types.NewChan(types.SendRecv, c3Named(c.Paths[a], tname(a))), false),
